@@ -5,17 +5,20 @@ const asidePkg = "github.com/redis/rueidis/rueidisaside"
 func init() {
 	checks["C39"] = &checkDef{
 		Level:       levelOther,
-		Explanation: "PARTIAL claim. Real rueidisaside Client.Get (both lock flavours: SET NX GET PX and the acquireLock script), keepalive, register, onInvalidation, with a stub rueidis.Client whose reply to every step is a decision: the cached GET of the key (nil, stored value, another client's placeholder, error), the keep-alive marker SET (ok/error), the lock acquisition (acquired, lost to another client, error), the holder-liveness read (dead, alive, error), the setkey script (ok/error), and a loader that succeeds or fails; an environment goroutine delivers invalidations for the key so that waits end; at most 3 retry rounds. Oracle: when Get returns without error the value is never the internal 'rueidisid:' placeholder and is the loader's value or the stored one; the loader runs only after this client acquired the lock; a failed loader or a failed store is followed by the lock-release script with this client's id; a dead holder's lock is deleted before retrying. Concurrent first Gets (two goroutines on a fresh client, delay-bounded schedules): whatever the interleaving of the two id registrations, every lock is taken under the id the client registered and keeps refreshing.",
+		Explanation: "Three harnesses. (3) Load once across clients: two cache-aside clients, each with its own connection and client-side cache, race for the same missing key on one Redis model; the real acquireLock/setkey/delkey scripts run in the harness-side Lua interpreter; DoCache replies are cached per connection until the server's invalidation push (OPTIN tracking of DoCache reads only; pushes are delivered asynchronously and in order with the replies of the same connection) arrives; keys and the clients' id markers expire by the virtual clock that drives the clients' timers; delay-bounded schedules. Oracle: both Gets return the loaded value, the loader ran exactly once, the value is stored under the key (a waiter that misses its wake-up ends with the context deadline and is reported). (1)+(2) single-client protocol with decided replies: Real rueidisaside Client.Get (both lock flavours: SET NX GET PX and the acquireLock script), keepalive, register, onInvalidation, with a stub rueidis.Client whose reply to every step is a decision: the cached GET of the key (nil, stored value, another client's placeholder, error), the keep-alive marker SET (ok/error), the lock acquisition (acquired, lost to another client, error), the holder-liveness read (dead, alive, error), the setkey script (ok/error), and a loader that succeeds or fails; an environment goroutine delivers invalidations for the key so that waits end; at most 3 retry rounds. Oracle: when Get returns without error the value is never the internal 'rueidisid:' placeholder and is the loader's value or the stored one; the loader runs only after this client acquired the lock; a failed loader or a failed store is followed by the lock-release script with this client's id; a dead holder's lock is deleted before retrying. Concurrent first Gets (two goroutines on a fresh client, delay-bounded schedules): whatever the interleaving of the two id registrations, every lock is taken under the id the client registered and keeps refreshing.",
 		Assumptions: []string{"the Lua scripts (delkey, setkey, acquireLock) are not executed: the stub answers in their place (their Redis-side semantics is a one-line compare-and-act each)", "commands are built by the real command builder (cmds.NewBuilder)"},
-		Trusted:     []string{"stub client (harness code)"},
-		Outside:     []string{"'load once across clients' and wake-ups across several clients: they need Redis' key and client-tracking semantics over several connections, which is not encoded", "marker refresh timers, Close racing with Get"},
-		Bounds:      map[string]any{"quick": "≤ 3 rounds per Get, both lock flavours; two racing Gets with delay budget 1", "thorough": "≤ 4 rounds; delay budget 2"},
+		Trusted:     []string{"stub client (harness code)", "harness/luasym.go.txt (Lua interpreter, Redis + tracking model)"},
+		Outside:     []string{"more than two clients, loaders that outlast the client id marker, connection loss between a client and Redis", "marker refresh timers, Close racing with Get"},
+		Bounds:      map[string]any{"quick": "≤ 3 rounds per Get, both lock flavours; two racing Gets with delay budget 1; two clients with delay budget 1", "thorough": "≤ 4 rounds; delay budget 2 (both concurrent harnesses)"},
 		specs: func(tier string) []specRef {
 			r := hsd(asidePkg, "VerifC39_get", P{"max_rounds": q(tier, int64(3), 4)}, 0, 3000000, 3000, "value", "error", "released", "deadholder")
 			r.dir = "rueidisaside"
 			c := hsd(asidePkg, "VerifC39_concurrent", nil, q(tier, 1, 2), 3000000, 3000, "raced", "done")
 			c.dir = "rueidisaside"
-			return []specRef{r, c}
+			l := hsd(asidePkg, "VerifC39_loadonce", nil, q(tier, 1, 2), 3000000, 3000, "once")
+			l.dir = "rueidisaside"
+			l.spec.Overrides = luaOverrides
+			return []specRef{r, c, l}
 		},
 	}
 }
